@@ -463,7 +463,12 @@ def leaf_specs(tier, classes=None):
             add(dict(op="Flip", shape=list(s), axes=None if ax is None else list(ax)))
     for s in space.shapes((1, 2), (1, 2, 3, 4, 5, 6, 7), 21):
         for f in itertools.product((1, 2, 3, 4), repeat=len(s)):
+            # start offsets below the factor, plus (1-D) every offset inside the axis - also >= the factor
             shifts = [None] + [list(t) for t in itertools.product(*[range(min(fi, ni)) for fi, ni in zip(f, s)])]
+            if len(s) == 1:
+                shifts += [[k] for k in range(min(f[0], s[0]), s[0])]
+            elif f[0] < s[0] and f[-1] < s[-1]:
+                shifts += [[s[0] - 1, 0], [f[0], f[-1]]]
             for sft in shifts:
                 add(dict(op="Downsample", shape=list(s), factors=list(f), shift=sft))
                 add(dict(op="Upsample", shape=list(s), factors=list(f), shift=sft))
